@@ -4,7 +4,7 @@ SPEC = {
     "runs": [
         run("e1-model", "c05_span_identity", "asan", 16000, 1000000),
         run("e2-threads", "c05_span_identity", "tsan", 600, 24000, params={"mode": "threads"},
-            timeout={"quick": 180, "thorough": 3600}),
+            timeout={"quick": 900, "thorough": 5400}),
         run("e5-fork", "c05_span_identity", "asan", 48, 960, sq=2, st=4, params={"mode": "fork"}),
     ],
     "floors": {
